@@ -3,6 +3,7 @@ package main
 // Forward symbolic execution over the loop-cut CFG of one go/ssa function (NaiveForm).
 
 import (
+	"strconv"
 	"runtime"
 	"os"
 	"os/exec"
@@ -1702,6 +1703,27 @@ func (fx *FuncExec) binop(st *State, op token.Token, a, b Val, rt types.Type, em
 		case token.GEQ:
 			return bv(fmt.Sprintf("(>= %s %s)", a.S, b.S))
 		case token.AND, token.OR, token.XOR, token.SHL, token.SHR, token.AND_NOT:
+			if x, okx := strconv.ParseInt(a.S, 10, 64); okx == nil && x >= 0 {
+				if y, oky := strconv.ParseInt(b.S, 10, 64); oky == nil && y >= 0 && (op != token.SHL && op != token.SHR || y < 62) {
+					// both operands are non-negative numerals: fold
+					var r int64
+					switch op {
+					case token.AND:
+						r = x & y
+					case token.OR:
+						r = x | y
+					case token.XOR:
+						r = x ^ y
+					case token.SHL:
+						r = x << uint(y)
+					case token.SHR:
+						r = x >> uint(y)
+					case token.AND_NOT:
+						r = x &^ y
+					}
+					return i(fmt.Sprintf("%d", r))
+				}
+			}
 			name := map[token.Token]string{token.AND: "int.and", token.OR: "int.or", token.XOR: "int.xor", token.SHL: "int.shl", token.SHR: "int.shr", token.AND_NOT: "int.andnot"}[op]
 			fx.em.DeclareBase(name, fmt.Sprintf("(declare-fun %s (Int Int) Int)", name))
 			fx.note("bit operations on mathematical integers are uninterpreted functions")
